@@ -196,6 +196,66 @@ def run(ctx: Ctx) -> None:
                                                      or got[1]["dependencies"] != want[1]["dependencies"])):
             ctx.violation("HTMLDocument.render() of a tree with objects differs from that of the substituted tree",
                           d, {"impl_output": repr(got)[:600], "expected": repr(want)[:600]})
+    histories(ctx)
+
+
+def _run_histories_marker():
+    pass
+
+
+def histories(ctx: Ctx) -> None:
+    """multi-step: a tree returned by tagify() (or rendered before) is extended with a new
+    tagifiable object somewhere below its root and rendered again; it must render as the tree
+    with that object replaced by its expansion too (no stale 'already expanded' state)."""
+    rng = ctx.rng
+    for _ in range(ctx.budget(700, 8000)):
+        d = trees.rand_tree(rng, rng.choice([2, 3, 4]), leaves="TTHM", names="bbivc", custom=rng.random() < 0.5)
+        x = build(d)
+        first = rng.choice(["tagify", "render", "both", "none"])
+        y = x
+        if first in ("tagify", "both"):
+            r = safe_call(lambda: x.tagify())
+            if r[0] != "ok":
+                continue
+            y = r[1]
+        if first in ("render", "both"):
+            safe_call(lambda: y.render())
+        # all tags of y, by depth
+        tags = []
+        def walk(t, depth):
+            if isinstance(t, Tag):
+                tags.append((depth, t))
+                for c in t.children:
+                    walk(c, depth + 1)
+        walk(y, 0)
+        deep = [t for dpt, t in tags if dpt >= 1] or [y]
+        target = rng.choice(deep)
+        exp_d = [trees.rand_child(rng, 1, leaves="TTH", names="bi") for _ in range(rng.choice([0, 1, 2]))]
+        obj = trees.CustomObj([build(e) for e in exp_d], True)
+        how = rng.choice(["append", "insert", "extend"])
+        if how == "append":
+            target.append(obj)
+        elif how == "insert":
+            target.insert(rng.randrange(0, len(target.children) + 1), obj)
+        else:
+            target.children.extend([obj])
+        ctx.count(("history", d, first, how), True, "tagify/render, then add an object below the root, then render")
+        got = safe_call(lambda: y.render())
+        # expectation: the same live tree with the object replaced by fresh copies of its expansion
+        idx = [i for i, c in enumerate(target.children) if c is obj][0]
+        target.children[idx:idx + 1] = [build(e) for e in exp_d]
+        want = safe_call(lambda: y.render())
+        target.children[idx:idx + len(exp_d)] = [obj]
+        ok = got[0] == want[0] and (got[0] != "ok" or (got[1]["html"] == want[1]["html"]))
+        if not ok:
+            ctx.violation("after tagify()/render(), adding a tagifiable object below the root and rendering again does "
+                          "not give the tree with that object replaced by its expansion",
+                          {"tree": d, "first": first, "how": how, "expansion": exp_d},
+                          {"impl_output": repr(got)[:500], "expected": repr(want)[:500]})
+        got2 = safe_call(lambda: HTMLDocument(y).render())
+        if got2[0] != "ok" and want[0] == "ok":
+            ctx.violation("HTMLDocument.render() fails after an object was added to an already tagified tree",
+                          {"tree": d, "first": first, "how": how}, {"impl_output": repr(got2)[:300]})
 
 
 def replay(ctx: Ctx, path: str) -> None:
